@@ -28,6 +28,14 @@ def loc(r, l):
     return ('C', [r, ('locus', l)])
 
 
+def via_inference(pg, cfg, r0):
+    inf = pg.Inference(bounds={'r': (0.0, 1e9)}, x0={'r': r0}, coal=lambda r: conv.make_coalescent(pg, dict(cfg, r=r)),
+                       loss=lambda c, o: 0.0, parallelize=False, pbar=False, seed=0, cache=True, n_runs=1)
+    with C.LogCapture():
+        inf.get_coal(r=r0).tree_height.loci.cov
+    return inf.get_coal(r=cfg['r'])
+
+
 def one(ctx, i):
     pg = C.import_phasegen()
     rng = random.Random(f'{ctx.seed}-c06-{i}')
@@ -45,6 +53,14 @@ def one(ctx, i):
     n = sum(cfg['n'].values())
     cfg['n_unl'] = rng.choice([0, 0, 1, n]) if D == 1 else 0
     coal = conv.make_coalescent(pg, cfg)
+    if rng.random() < 0.3:
+        # the same configuration handed out by Inference.get_coal (default state-space sharing) after the inference object was set
+        # up, and used, at ANOTHER recombination rate: the statistics must be those of the rate asked for
+        r0 = rng.choice([0.0, 0.5, 2 * cfg['r'] + 0.25])
+        if r0 != cfg['r']:
+            coal = via_inference(pg, cfg, r0)
+            cfg['via_get_coal_r0'] = r0       # recorded for the replay; not read by make_coalescent or the model
+            ctx.count('via-Inference.get_coal')
     with C.LogCapture() as lc:
         T = coal.tree_height.t_max
         th, tbl = coal.tree_height, coal.total_branch_length
@@ -162,6 +178,8 @@ def _replay_cfg(ctx, payload):
     pg = C.import_phasegen()
     cfg = conv.cfg_from_json(payload['cfg'])
     coal = conv.make_coalescent(pg, cfg)
+    if cfg.get('via_get_coal_r0') is not None:
+        coal = via_inference(pg, cfg, cfg['via_get_coal_r0'])
     cfg1 = dict(cfg); cfg1['loci'] = 1; cfg1.pop('r', None); cfg1.pop('n_unl', None)
     c1 = conv.make_coalescent(pg, cfg1)
     ctx.case(dict(cfg=cfg), 'replay')
